@@ -69,9 +69,10 @@ def run(ctx):
     if is_set:
         arg, L = pix[2][1], pix[2][2]
         ceil = ("mod", "math.ceil")
-        a0 = T.call("list", (T.call("map", (ceil, T.idx(pairs, L))),))
-        a1 = T.call("list", (T.call("map", (ceil, T.idx(pairs, T.add(L, T.num(1))))),))
-        a0b, a1b = T.call("map", (ceil, T.idx(pairs, L))), T.call("map", (ceil, T.idx(pairs, T.add(L, T.num(1)))))
+        cb = ("bv", "c")
+        a0 = ("map", T.call("math.ceil", (cb,)), cb, T.idx(pairs, L), T.TRUE)          # list(map(math.ceil, P[k])) == [math.ceil(c) for c in P[k]]
+        a1 = ("map", T.call("math.ceil", (cb,)), cb, T.idx(pairs, T.add(L, T.num(1))), T.TRUE)
+        a0b, a1b = a0, a1
         rng_ok = T.alpha(pix[2][3]) == T.alpha(steps)
         walk_ok = rng_ok and T.alpha(arg) in (T.alpha(T.call(f"{MY}.walk_two_vertices", (a0, a1, lay2))), T.alpha(T.call(f"{MY}.walk_two_vertices", (a0b, a1b, lay2))))
     ctx.check(is_set and walk_ok, "FORM", f"{h.qualname} / FORM / pixels = set union of walk_two_vertices(ceil(P[k-1]), ceil(P[k]), layers)", ctx.where(h),
@@ -102,7 +103,7 @@ def run(ctx):
         edge = T.idx(b, T.num(1))
         if mode == "window":
             v = ("bv", 2)
-            want = T.call("mean", (T.call("map", (("mod", "numpy.median"), ("map", T.call(f"{MY}.get_intensity", (img, v, lay3), KW), v, T.attr(edge, "vertices"), T.TRUE))),))
+            want = T.call("mean", (("map", T.call("median", (T.call(f"{MY}.get_intensity", (img, v, lay3), KW),)), v, T.attr(edge, "vertices"), T.TRUE),))
             ctx.clause("without integration: mean over the interface's vertices of the median of the window")
         else:
             I = T.call(f"{MY}.get_interpolation", (edge, lay3), KW)
